@@ -115,7 +115,6 @@ def with_method(g, path, how):
 
 
 def run(ck: Check):
-    rng = random.Random(ck.seed)
     ck.max_report = 12
     t_start = time.time()
 
